@@ -321,3 +321,34 @@ func VerifC10RealFiles() {
 	verifAssert(got == want, "C10/file-result-depends-on-neighbour-file"+mode)
 	verifCover("C10/real/end")
 }
+
+// VerifC10SecondFile: every decoder that is reused for the next input file (the command layer hands the same decoder
+// to each file) delivers that file's document too — a decoder that remembers "finished" from the previous file
+// silently skips it. Formats whose decoder the engine can execute on concrete text.
+func VerifC10SecondFile() {
+	// (the TOML, Lua, JSON and properties decoders sit on third-party parsers the engine cannot execute — unsafe pointer
+	// arithmetic, a bytecode VM, goroutines — and base64 on a native library: outside this harness)
+	formats := []string{"csv", "tsv", "uri", "xml-stub", "yaml"}
+	texts := [][2]string{{"a,b\n1,2\n", "a,b\n3,4\n"}, {"a\tb\n1\t2\n", "a\tb\n3\t4\n"}, {"x%20y", "z"}, {"", ""}, {"x: 1\n", "y: 2\n"}}
+	fi := verifChoice("format", len(formats))
+	if formats[fi] == "xml-stub" {
+		return // the XML decoder runs against a token stub in this engine (C11/C19 harnesses)
+	}
+	f, err := FormatFromString(formats[fi])
+	if err != nil || f.DecoderFactory == nil {
+		verifFail("C10/format-lookup")
+	}
+	dec := f.DecoderFactory()
+	count := 0
+	for file := 0; file < 2; file++ {
+		if err := dec.Init(strings.NewReader(texts[fi][file])); err != nil {
+			verifFail("C10/second-file-init-error format=" + formats[fi])
+		}
+		n, err := dec.Decode()
+		if err == nil && n != nil {
+			count++
+		}
+	}
+	verifAssert(count == 2, "C10/second-input-file-skipped format="+formats[fi])
+	verifCover("C10/second-file/end")
+}
